@@ -25,8 +25,8 @@ type vAttempt struct {
 // {succeed, fail, hang} after a duration from a small grid, optional caller
 // cancellation, in virtual time; select choices are always forked.
 func verifC18Dial() {
-	nt := vInt(1, 3)
-	maxc := vInt(1, 2)
+	nt := vInt(1, 3+vTier())
+	maxc := vInt(1, 2+vTier())
 	delay := 4 * vUnit
 	timeout := 10 * vUnit
 	res := ResolveResult{Port: 443}
@@ -40,7 +40,7 @@ func verifC18Dial() {
 	durs := make([]int64, nt)
 	for i := range outcomes {
 		outcomes[i] = vInt(0, 2)
-		durs[i] = int64([]int{0, 2, 6}[vInt(0, 2)]) * vUnit
+		durs[i] = int64([]int{0, 2, 6, 12}[vInt(0, 2+vTier())]) * vUnit
 	}
 	d := &Dialer[*vDialConn]{MaxConcurrency: maxc, ConcurrencyDelay: time.Duration(delay), Timeout: time.Duration(timeout)}
 	d.DialFunc = func(ctx context.Context, network, addr string, c *tls.Config) (*vDialConn, error) {
